@@ -11,6 +11,7 @@ code -> spec : the "execution" is the catalogue itself.  Every public Equality o
 from __future__ import annotations
 
 import importlib
+from fractions import Fraction
 import json
 import sys
 
@@ -21,13 +22,13 @@ from .tlc import Scratch, run_tlc, write_cfg
 
 PID = "C01"
 MODEL_CFG = {
-    "quick": dict(MaxLen=5, LeafNames={"len", "time", "speed", "angle", "freq", "two", "half", "mone", "zero", "wild", "gam"},
+    "quick": dict(MaxLen=5, LeafNames={"len", "time", "speed", "angle", "freq", "two", "half", "mone", "zero", "wild", "gam", "eta"},
                   OpNames={"mul2", "add2", "pow", "sin", "log", "abs", "ddt", "eq"}),
     "thorough": dict(MaxLen=6, LeafNames={"len", "time", "speed", "angle", "angv", "freq", "one", "two", "half", "mone", "zero",
-                                          "wild", "gam"},
+                                          "wild", "gam", "eta", "ratio"},
                      OpNames={"mul2", "add2", "add3", "pow", "sin", "log", "abs", "max2", "ddt", "int2", "eq"}),
 }
-INVARIANTS = ["TypeOK", "SumsHomogeneous", "OrderFree", "WildcardsMatch", "AngleInvisible"]
+INVARIANTS = ["TypeOK", "SumsHomogeneous", "OrderFree", "WildcardsMatch", "AngleInvisible", "PowersAdd", "SymbolicPartsCount"]
 
 
 def collect_traces(run: Run):
@@ -74,7 +75,15 @@ def _selftest_traces():
     time = ZERO_DIM[:2] + [[1, 1]] + ZERO_DIM[3:]
     bad = [_leaf(d=length), _leaf(d=time), _op("add", 2), _leaf(d=length), _op("rel", 2)]
     good = [_leaf(d=length), _leaf(d=length), _op("add", 2), _leaf(d=length), _op("rel", 2)]
-    return [{"tid": "__selftest_bad__", "ev": bad}, {"tid": "__selftest_good__", "ev": good}]
+    # symbolic exponents: p * V**gamma = p * V**gamma accepted and decided; p * V**gamma = p * V**(gamma - 1) refused
+    pres = [[-1, 1], [1, 1], [-2, 1]] + ZERO_DIM[3:]
+    vol = [[3, 1]] + ZERO_DIM[1:]
+    gam = dict(_leaf(), lt=1)
+    side = [_leaf(d=pres), _leaf(d=vol), gam, _op("pow", 2), _op("mul", 2)]
+    side1 = [_leaf(d=pres), _leaf(d=vol), gam, _leaf(num=Fraction(-1)), _op("add", 2), _op("pow", 2), _op("mul", 2)]
+    return [{"tid": "__selftest_bad__", "ev": bad}, {"tid": "__selftest_good__", "ev": good},
+            {"tid": "__selftest_symgood__", "ev": side + side + [_op("rel", 2)]},
+            {"tid": "__selftest_symbad__", "ev": side + side1 + [_op("rel", 2)]}]
 
 
 def validate(run: Run, sc, traces, info) -> None:
@@ -89,10 +98,13 @@ def validate(run: Run, sc, traces, info) -> None:
     verdict = {}
     for v in res.printed:
         verdict.setdefault(v[1], []).append(v)
-    st = {k: verdict.get(k, [[None]])[0][0] for k in ("__selftest_bad__", "__selftest_good__")}
-    if st != {"__selftest_bad__": "STUCK", "__selftest_good__": "ACCEPT"}:
+    st = {k: verdict.get(k, [[None]])[0][0] for k in ("__selftest_bad__", "__selftest_good__",
+                                                      "__selftest_symgood__", "__selftest_symbad__")}
+    if st != {"__selftest_bad__": "STUCK", "__selftest_good__": "ACCEPT",
+              "__selftest_symgood__": "ACCEPT", "__selftest_symbad__": "STUCK"} \
+            or verdict["__selftest_symgood__"][0][2]:
         raise RuntimeError(f"self-test of the trace specification failed: {st}")
-    run.coverage["selftest"] = "length + time rejected at the sum node, length + length accepted (binding of HomogeneityTrace)"
+    run.coverage["selftest"] = "length + time rejected at the sum node, length + length accepted; p V**gamma = p V**gamma accepted and decided, p V**gamma = p V**(gamma - 1) rejected (binding of HomogeneityTrace)"
     nodes = 0
     for tr in traces:
         tid = tr["tid"]
